@@ -9,8 +9,9 @@ use zvcore::explore::Verdict;
 use zvcore::refcodec as rc;
 use zvcore::world;
 
-/// (a) one call sequence on a REQ with `peers` echo peers. ops: true = send, false = recv
-fn req_sequence(ops: &[bool], peers: usize) -> Verdict {
+/// (a) one call sequence on a REQ with `peers` echo peers. ops: true = send, false = recv.
+/// `dead_first`: the first peer's connection fails every write (the socket has not noticed yet).
+fn req_sequence(ops: &[bool], peers: usize, dead_first: bool) -> Verdict {
     world::reset(world::WorldCfg { nested_env: false, yields: false, select: false, policy: 0 });
     let conns: Vec<e3::RawConn> = (0..peers).map(|i| e3::raw_conn(&format!("rep{}", i))).collect();
     for c in &conns {
@@ -21,13 +22,18 @@ fn req_sequence(ops: &[bool], peers: usize) -> Verdict {
     let obs = std::rc::Rc::new(std::cell::RefCell::new(Vec::<String>::new()));
     let (viol2, obs2) = (viol.clone(), obs.clone());
     let ops: Vec<bool> = ops.to_vec();
-    let what = format!("REQ with {} echo peers, calls {:?}", peers, ops_show(&ops));
+    let what = format!("REQ with {} echo peers{}, calls {:?}", peers, if dead_first { " (the first one's connection fails every write)" } else { "" }, ops_show(&ops));
     let conns2 = conns.clone();
     world::spawn_app("app", async move {
         let mut s = AnySocket::new(Ty::Req, None);
         for c in &conns2 {
             let _ = e3::attach_raw(s.backend(), *c).await;
         }
+        if dead_first {
+            world::set_wmode(conns2[0].from_lib, world::WMode::Fail(std::io::ErrorKind::BrokenPipe));
+        }
+        // a send that fails on the dead connection is allowed once; it must leave the socket idle
+        let mut dead_observed = !dead_first;
         // reference machine
         let mut awaiting: Option<Vec<Vec<u8>>> = None;
         let mut sent_ok = 0usize;
@@ -44,7 +50,14 @@ fn req_sequence(ops: &[bool], peers: usize) -> Verdict {
                         if awaiting.is_some() { "req/out-of-turn-send-accepted" } else { "req/send-without-peers-accepted" }.into(),
                         format!("call #{} send succeeded although {}", i, if awaiting.is_some() { "a request is outstanding" } else { "no peer is connected" }),
                     )),
-                    (Err(e), false) => viol2.borrow_mut().push(("req/in-turn-send-refused".into(), format!("call #{} send failed in the idle state with a peer connected: {}", i, e3::err_class(e)))),
+                    (Err(e), false) if !dead_observed && !matches!(e, ZmqError::ReturnToSender { .. }) => {
+                        // the write to the dead connection failed: that is how the socket notices; state stays idle
+                        dead_observed = true;
+                    }
+                    (Err(e), false) => viol2.borrow_mut().push((
+                        if dead_first { "req/in-turn-send-refused-after-failed-send" } else { "req/in-turn-send-refused" }.into(),
+                        format!("call #{} send failed in the idle state with a healthy peer connected: {}", i, e3::err_class(e)),
+                    )),
                     (Err(ZmqError::ReturnToSender { message, .. }), true) => {
                         if frames_of(message) != m {
                             viol2.borrow_mut().push(("req/returned-message-not-intact".into(), format!("call #{}: message handed back as {} instead of {}", i, rc::show_frames(&frames_of(message)), rc::show_frames(&m))));
@@ -306,7 +319,8 @@ fn build(p: &Value) -> Option<zvcore::explore::Scenario> {
         "req-seq" => {
             let o = ops(&p["ops"]);
             let n = p["peers"].as_u64()? as usize;
-            Some(std::sync::Arc::new(move || req_sequence(&o, n)))
+            let d = p["dead_first"].as_bool().unwrap_or(false);
+            Some(std::sync::Arc::new(move || req_sequence(&o, n, d)))
         }
         "rep-seq" => {
             let o = ops(&p["ops"]);
@@ -336,10 +350,15 @@ pub fn run(tier: Tier, replay: Option<String>) -> i32 {
         for bits in 0..(1u32 << len) {
             let ops: Vec<bool> = (0..len).map(|i| bits >> i & 1 == 1).collect();
             for peers in 0..=2usize {
-                let p = json!({"case":"req-seq","ops":ops_show(&ops),"peers":peers});
-                let o = ops.clone();
-                jobs.push(e3::job(format!("C08/req-seq/{}/{}", ops_show(&ops), peers), p, 0, 4, move || req_sequence(&o, peers)));
-                n_seq += 1;
+                for dead_first in [false, true] {
+                    if dead_first && peers != 2 {
+                        continue;
+                    }
+                    let p = json!({"case":"req-seq","ops":ops_show(&ops),"peers":peers,"dead_first":dead_first});
+                    let o = ops.clone();
+                    jobs.push(e3::job(format!("C08/req-seq/{}/{}/{}", ops_show(&ops), peers, dead_first), p, 0, 4, move || req_sequence(&o, peers, dead_first)));
+                    n_seq += 1;
+                }
             }
             for peers in 1..=2usize {
                 let p = json!({"case":"rep-seq","ops":ops_show(&ops),"peers":peers});
@@ -363,7 +382,7 @@ pub fn run(tier: Tier, replay: Option<String>) -> i32 {
     ck.cov("traces_validated_against_impl", ex);
     ck.cov("call_sequences", n_seq as u64);
     ck.cov("exhaustive", ck.coverage.get("e3_scenarios_capped").and_then(|v| v.as_u64()) == Some(0));
-    ck.cov("explanation", format!("(a) every call sequence over {{send, recv}} of length <= 6 on a real REQ with 0/1/2 echo peers and on a real REP with requests queued by 1/2 peers ({} sequences), each step compared with a 2-state reference machine: out-of-turn call fails, ReturnToSender carries the argument frame for frame, the wires are untouched by a failed call, later behaviour shows the state unchanged, a reply lands on exactly the requester's connection; (b) {} real REQ sockets x {} rounds against one real REP over in-memory pipes under every schedule with <= {} deviations: each client receives exactly the echoes of its own requests, in order.", n_seq, k, rounds, bound));
+    ck.cov("explanation", format!("(a) every call sequence over {{send, recv}} of length <= 6 on a real REQ with 0/1/2 echo peers (also with the first of two peers' connections failing every write: the failed send must leave the socket idle and the next send go to the healthy peer) and on a real REP with requests queued by 1/2 peers ({} sequences), each step compared with a 2-state reference machine: out-of-turn call fails, ReturnToSender carries the argument frame for frame, the wires are untouched by a failed call, later behaviour shows the state unchanged, a reply lands on exactly the requester's connection; (b) {} real REQ sockets x {} rounds against one real REP over in-memory pipes under every schedule with <= {} deviations: each client receives exactly the echoes of its own requests, in order.", n_seq, k, rounds, bound));
     ck.assume("echo peers answer instantly (harness state machines); REP.recv in the have-request state is allowed by the statement (only replies are gated)");
     ck.conclude()
 }
